@@ -6,12 +6,19 @@ import (
 
 	"github.com/google/uuid"
 	"github.com/kercylan98/vivid"
+	"github.com/kercylan98/vivid/internal/messages"
 	"github.com/kercylan98/vivid/internal/utils"
 )
 
 var (
 	_ vivid.ActorRef = (*Ref)(nil)
 )
+
+func init() {
+	messages.RefFactory = func(address, path string) (any, error) {
+		return NewRef(address, path)
+	}
+}
 
 const agentFutureMarker = "@future@"
 const LocalAddress = "localhost"
